@@ -11,7 +11,7 @@ from .. import histprops as HP
 from . import c12
 
 LEVEL = 'proof'
-NEEDS = ['SFTopo', 'Extracted', 'SourceFacts', 'Bridge', 'BridgeProofs', 'Base', 'Names', 'Graph', 'GraphObs', 'GraphTS', 'GraphInv', 'GraphLemmas', 'GraphInvProofs', 'Queries', 'QueriesProofs']
+NEEDS = ['TopoSort', 'TopoSortProofs', 'SFTopo', 'Extracted', 'SourceFacts', 'Bridge', 'BridgeProofs', 'Base', 'Names', 'Graph', 'GraphObs', 'GraphTS', 'GraphInv', 'GraphLemmas', 'GraphInvProofs', 'Queries', 'QueriesProofs']
 
 
 def time_ok(g):
